@@ -21,7 +21,7 @@ func ArpaLabels() []string {
 	return []string{
 		"0", "1", "9", "10", "255", "256", "00", "01", "000", "a", "f", "A", "g", "aa", "1a", "",
 		"in-addr", "IN-addr", "İn-addr", "xin-addr", "ip6", "Ip6", "İp6", "xip6", "arpa", "ARPA",
-		"arpa-", "com", "é", "\xff", "-", "_a", "K", "ın-addr",
+		"arpa-", "com", "é", "\xff", "-", "_a", "K", "ın-addr", "x255", "host100",
 	}
 }
 
@@ -31,7 +31,7 @@ var arpaRoots = []string{
 	"İn-addr.arpa", "İp6.arpa", "in-addr.arpa\x00", "in-addr.ARPA", "ıp6.arpa", "ip6.arpK", "in\raddr.arpa", "ip\x16.arpa", "in-addr\x0earpa", "IN\rADDR.ARPA", "ip6\x0earpa",
 }
 
-var v4PrefixLabels = []string{"0", "1", "9", "10", "99", "100", "255", "256", "00", "01", "000", "1a", "a", "", "-1", "+1", "0x1", "1e1", "é", "１", "0377", "25５"}
+var v4PrefixLabels = []string{"0", "1", "9", "10", "99", "100", "255", "256", "00", "01", "000", "1a", "a", "", "-1", "+1", "0x1", "1e1", "é", "１", "0377", "25５", "host192", "1234", "x255"}
 
 var hexd = "0123456789abcdef"
 
